@@ -440,8 +440,18 @@ def generate(run, rng):
         elif r < 0.74:
             a, b, g = span(n)
             run.do({"op": rng.choice(["wav.getSamples", "wav.getFrames"]), "recv": h, "a": [a, b], "grid": g})
-        elif r < 0.78:
+        elif r < 0.755:
             run.do({"op": "wav.duration", "recv": h})
+        elif r < 0.785:
+            # read, change some samples WITHOUT changing the length, read again
+            a, b, g = span(n)
+            ia, ib = orc.m[h].idx(a), orc.m[h].idx(b)
+            same_len = {"$b": enc_samples(_samples(rng, width, ib - ia), width).hex()}
+            dur = n / rate
+            run.do({"op": "wav.getSamples", "recv": h, "a": [0.0, dur]})
+            run.do({"op": "wav.replaceSegment", "recv": h, "a": [a, b, same_len], "grid": g,
+                    "tag": "E-same-length-replace"})
+            run.do({"op": rng.choice(["wav.getSamples", "wav.getFrames"]), "recv": h, "a": [0.0, dur]})
         elif r < 0.80:
             run.do({"op": "wav.new", "recv": h, "out": w.new_handle()})
         elif r < 0.82:
